@@ -94,7 +94,7 @@ def classify(c, so, ao):
         return ('async error reply on fusedev is followed by a second 16-byte write of stale reply-buffer memory (async_commit on an unbuffered writer)',
                 dict(base, defect='async-commit-unbuffered-rewrite', op='any'))
     diff = [n for n, x, y in zip(('res', 'panic', 'calls', 'packets', 'mem'), vs, va) if x != y]
-    return ('async and sync handlers differ in %s for opcode %s' % ('/'.join(diff), op), dict(base, defect='unclassified', differs=diff))
+    return ('async and sync handlers differ in %s for opcode %s (prior INIT minor %s, remap %s, vu %d)' % ('/'.join(diff), op, c['minor'], c['remap'], int(c['vu'])), dict(base, defect='unclassified', differs=diff))
 
 # ------------------------------------------------------------------ Coq terms
 def coq_buf0(c): return '(List.repeat %d 16)' % c['fill']
@@ -135,7 +135,39 @@ def witness_cases():
     ]
 
 # ------------------------------------------------------------------ cases
-def gen(rng, n, start=0, targeted='full', witnesses=True):
+def config_cases(rng):
+    """deterministic block: every field of [config] the models read, crossed with the answers that make it matter, on both
+    transports (added after the seeded change C20b -- `<` vs `<=` on the protocol minor in async_lookup -- slipped through the
+    random pairing of minor in {None,3,4,33} with a zero-inode entry)."""
+    out = []
+    def add(c, minor):
+        c['minor'] = minor; out.append(c)      # make_case treats minor=None as 'choose'
+    both = ('fusedev', 'virtio')
+    # cfg_minor (Server.vers.minor, set by a priming INIT in the harness): read by lookup / async_lookup only
+    for minor in (0, 3, 4, 5, 33, None):
+        for kind in ('entry0', 'entry', 'err'):
+            for tr in both:
+                q = S.gen_wf(rng, 1)
+                add(S.make_case(rng, 0, q['bytes'], S.gen_fs(rng, kind, 1, q['fields']), q, transport=tr, cap=4096, remap=(0, 0), minor=minor, vu=False), minor)
+    # cfg_vu_req: SETUPMAPPING / REMOVEMAPPING with and without a cache request handler
+    for op in (48, 49):
+        for vu in (True, False):
+            for tr in both:
+                q = S.gen_wf(rng, op)
+                add(S.make_case(rng, 0, q['bytes'], ('unit',), q, transport=tr, cap=4096, remap=(0, 0), minor=None, vu=vu), None)
+    # cfg_remap: identity, shifted (wrapping), failing -- on an async opcode, a fall-back opcode and a no-reply opcode
+    for op in (3, 10, 2):
+        for remap in ((0, 0), (1000, 2000), ((1 << 32) - 1, 1 << 31), 'fail'):
+            for tr in both:
+                q = S.gen_wf(rng, op)
+                add(S.make_case(rng, 0, q['bytes'], q['fs'], q, transport=tr, cap=4096, remap=remap, minor=None, vu=False), None)
+    # the minor an INIT stores, then read back (cfg_fsopt_mask is INIT's only)
+    for minor in (3, 4, 5):
+        q = S.gen_wf(rng, 26)
+        add(S.make_case(rng, 0, q['bytes'], q['fs'], q, transport='fusedev', cap=4096, remap=(0, 0), minor=minor, vu=False), minor)
+    return out
+
+def gen(rng, n, start=0, targeted='full', witnesses=True, config_block=True):
     cases = S.gen_cases(rng, n, frac_malformed=0.35)
     # the async handlers get extra weight: as many cases again are theirs
     extra = []
@@ -165,6 +197,7 @@ def gen(rng, n, start=0, targeted='full', witnesses=True):
         for tr in ('fusedev', 'virtio'):
             extra.append(S.make_case(rng, 0, q['bytes'], ('err', 'os', rng.choice(S.ERRNOS)), q, transport=tr, cap=4096, remap=(0, 0)))
     cases += extra
+    if config_block: cases += config_cases(rng)
     for c in cases: c['fill'] = rng.randrange(256)
     if witnesses: cases += witness_cases()
     for i, c in enumerate(cases): c['id'] = start + i
@@ -276,7 +309,7 @@ def run_check(tier, seed):
             except Exception: pass
         focus = [op for op in focus if op in S.OPS] or list(ASYNC_OPS)
         r2 = random.Random(seed + 1)
-        more = gen(r2, 1200 if quick else 6000, start=len(cases), targeted='full', witnesses=False)
+        more = gen(r2, 1200 if quick else 6000, start=len(cases), targeted='full', witnesses=False, config_block=False)
         for i in range(1200 if quick else 6000):
             op = r2.choice(focus) if r2.random() < 0.7 else r2.choice(ASYNC_OPS)
             q = S.gen_wf(r2, op)
@@ -341,7 +374,7 @@ def replay(path):
             if line.startswith('id='):
                 x = S.parse_obs(line); obs[x['mode']] = x
         c = {'id': i['id'], 'tr': i['tr'], 'cap': i['cap'], 'req': bytes.fromhex(i['req']), 'remap': 'fail' if i['remap'] == 'fail' else tuple(i['remap']),
-             'fill': i.get('fill', 165), 'fs': ('raw',), 'wf': None}
+             'fill': i.get('fill', 165), 'fs': ('raw',), 'wf': None, 'minor': i.get('minor'), 'vu': i.get('vu', False)}
         print('case %d: %s' % (n, i['harness_line'][:300]))
         for m in ('sync', 'async'):
             if m in obs: print('  %-5s res=%s calls=%s packets=%s mem=%s' % (m, obs[m]['res'], [x.split('(')[0] for x in obs[m]['calls']], [p.hex() for p in obs[m]['packets']], obs[m]['mem'].hex()[:96]))
